@@ -26,7 +26,8 @@ TRUSTED = [
 ]
 ASSUMPTIONS = [
     "escaping-neutral fragment: string literals, names, ~, output, sequencing (include / import / inheritance), bound values (macro "
-    "arguments, set, with, for), buffered bodies as values (macro call, caller(), super(), set block, call block); template text is "
+    "arguments, set, with, for), buffered bodies as values (macro call, caller(), super(), set block, call block, loop(children) of a "
+    "recursive for loop, a {% filter string %} block); template text is "
     "&-free; context data are plain strings; no |safe, no length/position/escaping-sensitive filter",
 ]
 CLAIM = dict(
@@ -41,7 +42,8 @@ CLAIM = dict(
          "under autoescape is related to the value without and the text written under autoescape unescapes to exactly the text written "
          "without) and render_once (with plain context data: unescape(render_on) = render_off). Tie: random terms (depth <= 4/5) "
          "rendered through the real engine in spellings covering set blocks, macros, call blocks, imported macros, includes, super(), "
-         "with, for, under static / select_autoescape / {% autoescape true|false %} / runtime-decided {% autoescape flag %} "
+         "with, for, {% filter string %} blocks and filtered set blocks, plus recursive for loops (depth 3-4, loop(children) in output, "
+         "set blocks, macro arguments, ~) unfolded into terms, under static / select_autoescape / {% autoescape true|false %} / runtime-decided {% autoescape flag %} "
          "configurations, data and literals containing & and all metacharacters; oracle evaluated by the Lean unescape; both renders "
          "compared with the model.",
     note="Trusted: Lean kernel; the value-level model (tied by correspondence only; it is not derived from the compiler's code "
@@ -96,8 +98,101 @@ def render_case(jinja2, case, on):
     return out, rl.templates, rl.used
 
 
+# recursive loops: `loop(children)` is one more buffered body used as a value (compiler.py visit_For, recursive epilogue:
+# return_buffer_contents) — the unfolding of a recursive loop over a concrete tree is a term of the neutral fragment
+LOOP_FORMS = {
+    "direct": "{% for x in tree recursive %}[{{ x.v }}{{ loop(x.children) }}]{% endfor %}",
+    "set-block": "{% for x in tree recursive %}{% set s %}{{ loop(x.children) }}{% endset %}({{ x.v ~ w }}{{ s }}){% endfor %}",
+    "macro": "{% macro mm(c) %}-{{ c }}-{% endmacro %}{% for x in tree recursive %}{{ x.v }}{{ mm(loop(x.children)) }}{% endfor %}",
+    "concat": "{% for x in tree recursive %}{{ x.v ~ loop(x.children) }}<{% endfor %}",
+    "twice": "{% for x in tree recursive %}{% set s = loop(x.children) %}{{ s }}{{ x.v }}{{ s }}{% endfor %}",
+}
+
+
+def seq_of(parts):
+    t = ("empty",)
+    for p in reversed(parts):
+        t = p if t == ("empty",) else ("seq", p, t)
+    return t
+
+
+def unfold(form, tree, w):
+    """the term a recursive loop over `tree` denotes"""
+    items = []
+    for x in tree:
+        rec = ("blk", unfold(form, x["children"], w))       # loop(x.children)
+        v = ("lit", x["v"])
+        if form == "direct":
+            items += [("text", "["), ("emit", v), ("emit", rec), ("text", "]")]
+        elif form == "set-block":
+            items.append(("bind", ("blk", ("emit", rec)), seq_of([("text", "("), ("emit", ("cat", v, ("lit", w))), ("emit", ("var", 0)), ("text", ")")])))
+        elif form == "macro":
+            items += [("emit", v), ("emit", ("blk", ("bind", rec, seq_of([("text", "-"), ("emit", ("var", 0)), ("text", "-")]))))]
+        elif form == "concat":
+            items += [("emit", ("cat", v, rec)), ("text", "<")]
+        else:
+            items.append(("bind", rec, seq_of([("emit", ("var", 0)), ("emit", v), ("emit", ("var", 0))])))
+    return seq_of(items)
+
+
+def gen_tree(rng, depth):
+    return [{"v": rng.choice(DATA), "children": gen_tree(rng, depth - 1) if depth > 1 else []} for _ in range(rng.randrange(1, 3))]
+
+
+def run_recursive(ctx, res, jinja2):
+    rng = ctx.rng("recursive")
+    cases = []
+    for i in range(ctx.pick(120, 1200)):
+        form = rng.choice(sorted(LOOP_FORMS))
+        tree = gen_tree(rng, rng.randrange(3, 5))
+        w = rng.choice(DATA)
+        cases.append((form, tree, w, rng.choice(MODES), rng.randrange(2)))
+    replies = core.driver_batch([[Atom("autoesc"), Atom("eval"), T.enc(unfold(f, t, w)), []] for f, t, w, _, _ in cases])
+    renders = []
+    for form, tree, w, mode, bit in cases:
+        outs = []
+        for on in (True, False):
+            src, kw, name = LOOP_FORMS[form], {"tree": tree, "w": w}, "t"
+            if mode == "static":
+                env_kw = dict(autoescape=on)
+            elif mode == "select":
+                name = "t.html" if on else "t.txt"
+                env_kw = dict(autoescape=jinja2.select_autoescape(enabled_extensions=("html",), disabled_extensions=("txt",), default=not on))
+            elif mode == "block":
+                src = "{% autoescape " + ("true" if on else "false") + " %}" + src + "{% endautoescape %}"
+                env_kw = dict(autoescape=not on)
+            else:
+                src = "{% autoescape flag %}" + src + "{% endautoescape %}"
+                env_kw = dict(autoescape=bool(bit))
+                kw["flag"] = on
+            try:
+                outs.append(jinja2.Environment(loader=jinja2.DictLoader({name: src}), **env_kw).get_template(name).render(**kw))
+            except Exception as e:  # noqa
+                outs.append(f"raised:{type(e).__name__}:{e}")
+        renders.append(outs)
+    unesc = core.driver_batch([[Atom("autoesc"), Atom("unescape"), on if not on.startswith("raised:") else ""] for on, _ in renders])
+    nontrivial = 0
+    for (form, tree, w, mode, bit), rep, (on, off), un in zip(cases, replies, renders, unesc):
+        m_on, m_off, neutral, _, _ = rep[1]
+        replay = {"loop_form": form, "src": LOOP_FORMS[form], "tree": tree, "w": w, "mode": mode, "env_default": bool(bit)}
+        if neutral is not True:
+            raise core.HarnessError("recursive-loop unfolding left the neutral fragment")
+        if on.startswith("raised:") or off.startswith("raised:"):
+            res.violate(f"C16:render-raised:recursive-loop:{mode}", f"render raised: on={on[:120]!r} off={off[:120]!r}", replay, no_input=True)
+            continue
+        nontrivial += on != off
+        if un[1] != off:
+            res.violate(f"C16:once:recursive-loop:{mode}", f"recursive loop {LOOP_FORMS[form]!r} over {tree} (w={w!r}, mode {mode}): unescape(render with "
+                        f"autoescape) = {un[1]!r} but render without = {off!r} (autoescaped render {on!r})", replay)
+        elif on != m_on or off != m_off:
+            res.violate("C16:model-difference:recursive-loop", f"mode {mode}: {LOOP_FORMS[form]!r} renders {on!r} / {off!r}, model {m_on!r} / {m_off!r}",
+                        replay, no_input=True)
+    return {"renders": 2 * len(cases), "nontrivial": nontrivial, "forms": sorted(LOOP_FORMS), "tree_depth": "3-4"}
+
+
 def run(ctx, res):
     jinja2 = core.import_jinja()
+    rec = run_recursive(ctx, res, jinja2)
     n = ctx.pick(1200, 12000)
     cases = [make_case(ctx, i) for i in range(n)]
     replies = core.driver_batch([[Atom("autoesc"), Atom("eval"), T.enc(c["term"]), c["data"]] for c in cases])
@@ -133,8 +228,9 @@ def run(ctx, res):
         if m_un != m_off:
             raise core.HarnessError(f"model violates its own theorem on {replay}")
     res.coverage.update({
-        "evaluations": 2 * len(cases),
-        "distinct_nontrivial": len(nontrivial),
+        "evaluations": 2 * len(cases) + rec["renders"],
+        "distinct_nontrivial": len(nontrivial) + rec["nontrivial"],
+        "recursive_loops": rec,
         "rule": ("random well-sorted terms of the neutral fragment (depth 2-4 quick / 2-5 thorough) over 1-3 context strings drawn from a "
                  "pool with & < > ' \" and entity look-alikes, literals likewise, &-free template text with markup; each term is spelled as "
                  "a template set by the Realiser (random choice among the spellings of blk / bind / seq / emit) and rendered with "
@@ -151,6 +247,12 @@ def run(ctx, res):
 def replay(ctx, case):
     jinja2 = core.import_jinja()
     c = case["case"]
+    if isinstance(c, dict) and "loop_form" in c:
+        out = {}
+        for on in (True, False):
+            out["on" if on else "off"] = jinja2.Environment(autoescape=on).from_string(c["src"]).render(tree=c["tree"], w=c["w"])
+        out["unescaped_on"] = core.driver_batch([[Atom("autoesc"), Atom("unescape"), out["on"]]])[0][1]
+        return out
     if isinstance(c, dict) and "case" in c:
         cc = make_case(ctx, c["case"])
         on, tpl, _ = render_case(jinja2, cc, True)
